@@ -69,6 +69,18 @@ CLAIMED = {
          'Trusted: Coq kernel + vm_compute; translator of _codes / relation tables; Counter, dict and str.strip semantics '
          'modelled; correspondence harness.',
          'DESIGN.md section 5, C18'),
+ 'C16': ('Coq theorems that the model functions tied to the code by C13/C14 are order-free (sorted results, symmetric choices); '
+         'the runtime part — hash randomisation, repeated calls, read-only calls not influencing later calls — is decided by '
+         'running the whole API battery in separate processes under different PYTHONHASHSEED values, with the call order '
+         'reversed in every other process and within each process, and comparing transcripts byte for byte',
+         'Partial by nature: Gallina functions are deterministic, so the theorems cover only that the modelled taxonomy functions '
+         'do not depend on the order in which sets are built (common_hypernyms sorted, lowest_common_hypernyms independent of '
+         'argument order). Hash-seed independence of every public result (queries, navigation, relations, closures, searches, '
+         'translations, taxonomy, similarity, IC incl. key order, validate item order, dump and export bytes) and purity of '
+         'read-only calls are established by differential execution only.',
+         'Trusted: Coq kernel; the battery covers the calls listed in the evidence; processes and seeds explored are listed in '
+         'the evidence.',
+         'DESIGN.md section 5, C16'),
  'C17': ('Coq proof over a Gallina model of Morphy using the rule table regenerated from wn/morphy.py; '
          'model tied to the code by differential correspondence (vm_compute) on generated lexicons/queries',
          'Theorems (closed under the global context) characterise Morphy.__call__ exactly for every rule table, word '
